@@ -214,7 +214,7 @@ def run(ctx):
     cases = [(a, b, "corpus") for a, b in CORPUS]
     if ctx.replay_cases:
         cases = [(c["a"], c["b"], "replay") for c in ctx.replay_cases if "a" in c and "b" in c] + cases
-    for _ in range(ctx.n(4000, 30000)):
+    for _ in range(ctx.n(3000, 30000)):
         a, b = gen_pair(rng)
         cases.append((a, b, "generated"))
     if not ctx.quick():
